@@ -60,8 +60,8 @@ BREAKS = [
     ('C08-quote-char', ['C08'], 'ddsmt/nodeio.py',
      "        if char in ('\"', '|'):", "        if char in ('\"', '|', \"'\"):"),
     ('C08-forget-pushback', ['C08'], 'ddsmt/nodeio.py',
-     "                if char in ('(', ')', ';'):\n                    pos -= 1\n                    break",
-     "                if char in (')', ';'):\n                    pos -= 1\n                    break\n                if char == '(':\n                    break"),
+     "                if char in ('(', ')', ';', '\"', '|'):\n                    pos -= 1\n                    break",
+     "                if char in (')', ';', '\"', '|'):\n                    pos -= 1\n                    break\n                if char == '(':\n                    break"),
     ('C09-swap-ignore', ['C09'], 'ddsmt/checker.py',
      "            options.args().ignore_output or options.args().ignore_out,\n            options.args().ignore_output or options.args().ignore_err,",
      "            options.args().ignore_output or options.args().ignore_err,\n            options.args().ignore_output or options.args().ignore_out,"),
